@@ -283,6 +283,53 @@ def runtime_checks():
     if not torch.allclose(got, th[2], rtol=0, atol=1e-14) or not torch.allclose(got2, th[2], rtol=0, atol=1e-14):
         bad.append(dict(case='bundle_param_lookup re-assigned / edited after construction', violated='parameters are still routed by the old table',
                         got=got.reshape(-1).tolist(), want=th[2].reshape(-1).tolist()))
+    # column indices of any integer type (numpy / torch integers, as produced by np.arange or a config loader)
+    import numpy as np
+    for idx, what in ((np.int64(2), 'numpy.int64'), (np.int32(1), 'numpy.int32'), (np.arange(3)[2], 'element of numpy.arange'), (True, 'bool (column 1)'),
+                      (torch.tensor(2), '0-dim integer tensor')):
+        try:
+            c = BundleIVP(t_0=0.3, u_0=1.9, bundle_param_lookup={'u_0': idx})
+            got = c.enforce(net, torch.full((n, 1), 0.3), *th).detach()
+            want = th[int(idx)]
+            if not torch.allclose(got, want, rtol=0, atol=1e-14):
+                bad.append(dict(case='column index that is not a built-in int', index_type=what, violated='u(t_0) is not the named column',
+                                got=got.reshape(-1).tolist(), want=want.reshape(-1).tolist()))
+        except Exception as e:
+            if 'tensor' not in what:       # indexing a tuple with a 0-dim tensor is up to Python; the others must work
+                bad.append(dict(case='column index that is not a built-in int', index_type=what, error=f'{type(e).__name__}: {e}'))
+    # constructor values that are tensors / arrays are used AS THEY ARE at evaluation time (a learnable or later-updated boundary value)
+    u0t, t0t = torch.tensor(0.7, dtype=torch.float64), torch.tensor(0.3, dtype=torch.float64)
+    c = BundleIVP(t_0=t0t, u_0=u0t, bundle_param_lookup={'u_0_prime': 0}, u_0_prime=None)
+    c.enforce(net, torch.full((n, 1), 0.3, dtype=torch.float64), *th)
+    u0t += 1.5
+    t0t -= 0.2
+    tt = torch.full((n, 1), 0.1, dtype=torch.float64, requires_grad=True)
+    u = c.enforce(net, tt, *th)
+    du = diff(u, tt).detach()
+    if not torch.allclose(u.detach(), torch.full((n, 1), 2.2, dtype=torch.float64), rtol=0, atol=1e-12) or not torch.allclose(du, th[0], rtol=0, atol=1e-12):
+        bad.append(dict(case='tensor-valued constructor parameters updated in place after construction', violated='the condition still uses the '
+                        'values of construction time', got=u.detach().reshape(-1).tolist(), want=2.2, derivative=du.reshape(-1).tolist()))
+    u1t = torch.tensor(2.0, dtype=torch.float64, requires_grad=True)      # a learnable right-end value
+    c = BundleDirichletBVP(t_0=0.0, u_0=None, t_1=1.0, u_1=u1t, bundle_param_lookup={'u_0': 1})
+    out = c.enforce(net, torch.full((n, 1), 1.0, dtype=torch.float64), *th)
+    g, = torch.autograd.grad(out.sum(), u1t, allow_unused=True)
+    if g is None or abs(float(g) - n) > 1e-12:
+        bad.append(dict(case='learnable (requires_grad) constructor parameter', violated='u(t_1) does not depend on the u_1 tensor given to the constructor',
+                        gradient=None if g is None else float(g), want=n))
+    # conditions built without a table (or with an empty one) do not share one: filling in one table leaves the others alone
+    c1, c2 = BundleIVP(t_0=0.3, u_0=1.9), BundleIVP(t_0=0.3, u_0=0.4)
+    c3, c4 = BundleDirichletBVP(0.0, 0.5, 1.0, 2.0), BundleIVP(t_0=0.3, u_0=0.4, bundle_param_lookup={})
+    c1.bundle_param_lookup['u_0'] = 1
+    c4.bundle_param_lookup['u_0'] = 2
+    g1 = c1.enforce(net, torch.full((n, 1), 0.3), *th).detach()
+    g2 = c2.enforce(net, torch.full((n, 1), 0.3), *th).detach()
+    g3 = c3.enforce(net, torch.full((n, 1), 0.0), *th).detach()
+    g5 = BundleIVP(t_0=0.3, u_0=-0.6).enforce(net, torch.full((n, 1), 0.3), *th).detach()
+    if not torch.allclose(g1, th[1], rtol=0, atol=1e-14) or not torch.allclose(g2, torch.full((n, 1), 0.4, dtype=g2.dtype), rtol=0, atol=1e-6) \
+            or not torch.allclose(g3, torch.full((n, 1), 0.5, dtype=g3.dtype), rtol=0, atol=1e-6) \
+            or not torch.allclose(g5, torch.full((n, 1), -0.6, dtype=g5.dtype), rtol=0, atol=1e-6):
+        bad.append(dict(case='lookup table of one condition filled in after construction', violated='another condition (built without a table) is '
+                        're-routed too', first=g1.reshape(-1).tolist(), second=g2.reshape(-1).tolist(), third=g3.reshape(-1).tolist(), later=g5.reshape(-1).tolist()))
     # rows whose u_0 dwarfs u_1: the right-end value is still exactly the row's u_1
     big = [torch.full((n, 1), 1.0e9), torch.full((n, 1), 1.25e-3), th[2]]
     c = BundleDirichletBVP(t_0=0.0, u_0=None, t_1=1.0, u_1=None, bundle_param_lookup={'u_0': 0, 'u_1': 1})
